@@ -545,6 +545,102 @@ func runC19(c *Ctx) {
 	c.ruleConstruction("L10-one-engine-per-instance")
 	c.only = nil
 	c.Min("L10-one-engine-per-instance", 1)
+	// L11: package-level state. A variable of a product package that is written after package initialisation
+	// (a cache, a counter, a copy-on-write table) is shared by every engine, context and pool instance of the
+	// process: all its accesses outside the initialiser must hold one common mutex, a write exclusively
+	// ("published tables are never edited, so reads take no lock" is a data race on the variable itself)
+	looked := 0
+	for _, pp := range productPkgs {
+		sp := c.SSA[pp]
+		if sp == nil {
+			continue
+		}
+		var names []string
+		for name, m := range sp.Members {
+			if _, isG := m.(*ssa.Global); isG {
+				names = append(names, name)
+			}
+		}
+		sort.Strings(names)
+		for _, name := range names {
+			g := sp.Members[name].(*ssa.Global)
+			if nt, ok := g.Type().(*types.Pointer).Elem().(*types.Named); ok && nt.Obj().Pkg() != nil && nt.Obj().Pkg().Path() == "sync" {
+				continue
+			}
+			looked++
+			type gacc struct {
+				in    ssa.Instruction
+				write bool
+			}
+			var accs []gacc
+			for _, f := range c.AllFns {
+				if f.Pkg != sp || f.Name() == "init" || rootOf(f).Name() == "init" {
+					continue
+				}
+				eachInstr(f, func(in ssa.Instruction) {
+					switch t := in.(type) {
+					case *ssa.Store:
+						if t.Addr == ssa.Value(g) {
+							accs = append(accs, gacc{in, true})
+						}
+					case *ssa.UnOp:
+						if t.Op == token.MUL && t.X == ssa.Value(g) {
+							w := false
+							for _, r := range *t.Referrers() {
+								switch u := r.(type) {
+								case *ssa.MapUpdate:
+									w = w || u.Map == ssa.Value(t)
+								case *ssa.IndexAddr:
+									for _, r2 := range *u.Referrers() {
+										if st, isSt := r2.(*ssa.Store); isSt && st.Addr == ssa.Value(u) {
+											w = true
+										}
+									}
+								}
+							}
+							accs = append(accs, gacc{in, w})
+						}
+					}
+				})
+			}
+			written := false
+			for _, a := range accs {
+				written = written || a.write
+			}
+			if !written {
+				continue
+			}
+			var common map[string]string
+			var badAt ssa.Instruction
+			for _, a := range accs {
+				held := c.Index(a.in.Parent()).heldAt(a.in)
+				cur := map[string]string{}
+				for m, k := range held {
+					if !a.write || k == "Lock" {
+						cur[m] = k
+					}
+				}
+				if common == nil {
+					common = cur
+				} else {
+					for m := range common {
+						if _, ok := cur[m]; !ok {
+							delete(common, m)
+						}
+					}
+				}
+				if len(cur) == 0 && badAt == nil {
+					badAt = a.in
+				}
+			}
+			pos := g.Pos()
+			if badAt != nil {
+				pos = badAt.Pos()
+			}
+			c.Check("L11-package-state-locked", pp+"."+name, len(common) > 0, pos, "package-level variable %s is written after initialisation and its %d access(es) outside the initialiser hold no common mutex (%d unlocked): it is shared by every engine and pool instance of the process", name, len(accs), map[bool]int{true: 1, false: 0}[badAt != nil])
+		}
+	}
+	c.Check("L11-package-state-locked", "package-variables-looked-at", looked >= 5, 0, "%d package-level variables of the product packages examined", looked)
 	if n == 0 {
 		c.Lost("L5-captured-writes-locked", "stores to captured variables inside goroutines")
 	}
